@@ -36,6 +36,7 @@ type Outcome struct {
 	Notes     []string
 	AssumeBad bool // an assumption did not hold natively (replay diverged)
 	Diverged  string
+	Skipped   bool // the harness declared the drawn case not realisable natively
 }
 
 var (
@@ -206,6 +207,13 @@ func Assert(c bool, label string) {
 }
 
 func Reach(label string)     { Out.Reached = append(Out.Reached, label) }
+
+// SkipNative ends a native replay whose drawn case cannot be realised against the real environment
+// (e.g. an instant equal to the real clock). No-op under the engine.
+func SkipNative() {
+	Out.Skipped = true
+	panic(stopPanic{})
+}
 func Note(s string)          { Out.Notes = append(Out.Notes, s) }
 func FindingKey(s string)    {}
 func ExpectPanic(b bool)     {}
